@@ -125,7 +125,10 @@ type Machine struct {
 	// ReturnIsEnd makes a return statement of the evaluated statement list (not of an inlined
 	// helper) end the evaluation with Sym("end"), like a break out of the loop being examined.
 	ReturnIsEnd bool
-	depth       int // > 0 while executing an inlined helper
+	// IgnoreStores lets assignments through selectors / index expressions pass as no-ops (the
+	// evaluated question concerns locals only).
+	IgnoreStores bool
+	depth        int // > 0 while executing an inlined helper
 	// RangeEvery, when set, names the boolean operand "every element of the ranged collection is
 	// true" for a `for _, v := range <collection of bool>` loop (empty name: not such a loop).
 	// The loop is then evaluated as a universal test: elements that are true run the body without
@@ -587,6 +590,9 @@ func (m *Machine) execStmt(s ast.Stmt) {
 			for i, l := range x.Lhs {
 				id, ok := l.(*ast.Ident)
 				if !ok {
+					if m.IgnoreStores {
+						continue // a store through a selector / index: no tracked local changes
+					}
 					undecided("assignment to non-local")
 				}
 				obj := m.Info.Defs[id]
